@@ -151,30 +151,35 @@ Definition pull_arg (info : N) (r : list N) : option (option N * list N) :=
   else if info =? 31 then Some (None, r)
   else None.
 
+(** [Header::try_from(Title)]: which (major type, argument) pairs are headers *)
+Definition classify (major info : N) (a : option N) : option hdr :=
+  match major, a with
+  | 0, Some n => Some (HPos n)
+  | 1, Some n => Some (HNeg n)
+  | 2, _ => Some (HBytes a)
+  | 3, _ => Some (HText a)
+  | 4, _ => Some (HArray a)
+  | 5, _ => Some (HMap a)
+  | 6, Some n => Some (HTag n)
+  | 7, None => Some HBreak
+  | 7, Some n =>
+    if info <? 25 then Some (HSimple n)
+    else if info =? 25 then Some (HFloat 2 n)
+    else if info =? 26 then Some (HFloat 4 n)
+    else Some (HFloat 8 n)
+  | _, _ => None                     (* integer / tag with additional info 31; byte >= 256 *)
+  end.
+
 Definition pull (bs : list N) : option (hdr * list N) :=
   match bs with
   | [] => None
   | b :: r =>
-    let major := b / 32 in
-    let info := b mod 32 in
-    match pull_arg info r with
+    match pull_arg (b mod 32) r with
     | None => None
     | Some (a, r') =>
-      match major, a with
-      | 0, Some n => Some (HPos n, r')
-      | 1, Some n => Some (HNeg n, r')
-      | 2, _ => Some (HBytes a, r')
-      | 3, _ => Some (HText a, r')
-      | 4, _ => Some (HArray a, r')
-      | 5, _ => Some (HMap a, r')
-      | 6, Some n => Some (HTag n, r')
-      | 7, None => Some (HBreak, r')
-      | 7, Some n =>
-        if info <? 25 then Some (HSimple n, r')
-        else if info =? 25 then Some (HFloat 2 n, r')
-        else if info =? 26 then Some (HFloat 4 n, r')
-        else Some (HFloat 8 n, r')
-      | _, _ => None                     (* integer / tag with additional info 31; byte >= 256 *)
+      match classify (b / 32) (b mod 32) a with
+      | Some h => Some (h, r')
+      | None => None
       end
     end
   end.
